@@ -1,6 +1,6 @@
 CONSTANTS
-  MaxA = 3
-  Budget = 2
+  MaxA = 2
+  Budget = 1
   MaxLoop = 10
   HasTry = FALSE
   Behaviours = {"ok", "5xx", "close", "never", "connfail", "okclose"}
